@@ -102,7 +102,18 @@ func countSingles(seed []byte) int {
 
 type site struct {
 	Off   int
-	Label string
+	Label string // field path, for reports
+	Class string // element class of the pre-allocated storage: the memo is per class, not per field
+}
+
+func elemClass(t reflect.Type) string {
+	switch t.Kind() {
+	case reflect.Ptr:
+		return "slice-of-pointers"
+	case reflect.Slice:
+		return "slice-of-bytestrings"
+	}
+	return "slice-of-" + t.Kind().String()
 }
 
 func encLen(v reflect.Value) int {
@@ -125,10 +136,10 @@ func findSites(v reflect.Value, off int, label string, out *[]site, depth int) {
 			return
 		}
 		if va.EncodingMask()&ua.VariantArrayValues != 0 {
-			*out = append(*out, site{off + 1, label + ".arrayLength"})
+			*out = append(*out, site{off + 1, label + ".arrayLength", "variant.arrayLength"})
 			if va.EncodingMask()&ua.VariantArrayDimensions != 0 {
 				if n := encLen(v); n > 0 {
-					*out = append(*out, site{off + n - 4*(len(va.ArrayDimensions())+1), label + ".arrayDimensionsLength"})
+					*out = append(*out, site{off + n - 4*(len(va.ArrayDimensions())+1), label + ".arrayDimensionsLength", "variant.arrayDimensionsLength"})
 				}
 			}
 		}
@@ -173,7 +184,7 @@ func findSites(v reflect.Value, off int, label string, out *[]site, depth int) {
 		if v.Type().Elem().Kind() == reflect.Uint8 {
 			return
 		}
-		*out = append(*out, site{off, label})
+		*out = append(*out, site{off, label, elemClass(v.Type().Elem())})
 		off += 4
 		for i := 0; i < v.Len() && i < 4; i++ {
 			findSites(v.Index(i), off, label+"[]", out, depth+1)
@@ -186,14 +197,15 @@ func findSites(v reflect.Value, off int, label string, out *[]site, depth int) {
 	}
 }
 
-// memoKey returns the identity of "this replacement at this site" or "" if the mutation touches no site.
+// memoKey returns the identity of "this replacement at a site of this class, decoded through this
+// entry class" or "" if the mutation touches no site.
 func memoKey(typ string, sites []site, m mutation) string {
 	if m.Kind == 't' {
 		return ""
 	}
 	for _, s := range sites {
 		if m.Off < s.Off+4 && m.Off+m.W > s.Off {
-			return typ + "|" + s.Label + "|" + strconv.Itoa(m.Off-s.Off) + "|" + string(m.Kind) + strconv.FormatUint(uint64(binary.LittleEndian.Uint32(m.New[:])), 16)
+			return typ + "|" + s.Class + "|" + strconv.Itoa(m.Off-s.Off) + "|" + string(m.Kind) + strconv.FormatUint(uint64(binary.LittleEndian.Uint32(m.New[:])), 16)
 		}
 	}
 	return ""
